@@ -612,8 +612,9 @@ func checkC04(c *Ctx) *core.Result {
 		r.Fail("vacuity", "-", "table scans", "-", fmt.Sprintf("only %d table scans found in the name predicates (expected 3)", n3))
 	}
 	n4 := nameComparisonRule(p, r, isTag, t, "N4", true, nil) + nameComparisonRule(p, r, isAttr, t, "N4", true, nil)
-	if n4 < 7 {
-		r.Fail("vacuity", "-", "name comparisons", "-", fmt.Sprintf("only %d name comparisons found (expected ≥ 7)", n4))
+	// (one comparison per table scan — a scan helper shared by two tables counts once — and the four literal names)
+	if n4 < 5 {
+		r.Fail("vacuity", "-", "name comparisons", "-", fmt.Sprintf("only %d name comparisons found (expected ≥ 5)", n4))
 	}
 	minTag := 1 << 30
 	for _, n := range t.BlackTags {
@@ -630,14 +631,15 @@ func checkC04(c *Ctx) *core.Result {
 			}
 		}
 	}
-	rawLengthRule(p, r, isTag, minTag, "N-b")
+	maxTag, maxAttr := maxNameLens(t, isTag)
+	rawLengthRule(p, r, isTag, minTag, maxTag, "N-b")
 	minAttr := 1 << 30
 	for _, n := range t.Blacks {
 		if len(n.Name) < minAttr {
 			minAttr = len(n.Name)
 		}
 	}
-	rawLengthRule(p, r, isAttr, minAttr, "N-b")
+	rawLengthRule(p, r, isAttr, minAttr, maxAttr, "N-b")
 
 	// ---- N5: scheme constants reach the matcher
 	schemes := map[string]bool{}
